@@ -3,7 +3,7 @@
    checked schema's table; exampleBuilder's expansion with processedTypes; the bytes it writes.
    Spec/RefGraph.v: instantiability (least fixed point, height-indexed) and the "requires itself" relation. *)
 From Coq Require Import List NArith Bool.
-From JS Require Import Base.Res Model.Recursion Spec.RefGraph Spec.JsonGrammar Proofs.RecursionProofs Proofs.ExampleProofs.
+From JS Require Import Base.Res Model.Recursion Spec.RefGraph Spec.JsonGrammar Proofs.RecursionProofs Proofs.RecursionTermination Proofs.ExampleProofs.
 Import ListNotations.
 
 (* for every project, every table configuration and every amount of fuel: an "infinite recursion" verdict
@@ -33,8 +33,28 @@ Theorem C06_example_json : forall n x, xsize x <= n -> JValue (render x).
 Proof. exact render_is_json. Qed.
 Print Assumptions C06_example_json.
 
-(* partial: termination of the checker itself (fuel bound) is not proved; the correspondence runs it with fuel 4000
-   on every generated graph and compares the verdict with the implementation *)
+(* the checker terminates: check_fuel = size of the root + #names * (largest type + 1) is enough fuel (every followed
+   reference adds a new name of the finite universe of the nested tables to `visited`); it never fails with a code;
+   and more fuel never changes the verdict - so the model decides its question ... *)
+Theorem C06_checker_terminates : forall rootname rootnode roott f, check_fuel rootnode roott <= f ->
+  exists b, rec_check f rootname rootnode roott = Ok b.
+Proof. exact check_terminates. Qed.
+Print Assumptions C06_checker_terminates.
+Theorem C06_checker_decides : forall rootname rootnode roott,
+  exists b, forall f, check_fuel rootnode roott <= f -> rec_check f rootname rootnode roott = Ok b.
+Proof. exact check_decides. Qed.
+Print Assumptions C06_checker_decides.
+(* ... and the two directions hold without "whenever the check returns": a root with a finite instance is accepted,
+   a root that requires itself is reported *)
+Theorem C06_instantiable_accepted : forall rootname rootnode roott f, check_fuel rootnode roott <= f ->
+  Inst rootname rootnode roott -> rec_check f rootname rootnode roott = Ok false.
+Proof. exact instantiable_is_accepted. Qed.
+Print Assumptions C06_instantiable_accepted.
+Theorem C06_self_requiring_reported : forall rootname rootnode roott f, check_fuel rootnode roott <= f ->
+  Req rootname roott [] roott rootnode -> rec_check f rootname rootnode roott = Ok true.
+Proof. exact self_requiring_is_reported. Qed.
+Print Assumptions C06_self_requiring_reported.
+
 Example C06_example :
   (* @t0 {p: @t1}, @t1 {p: @t2}, @t2 {p: @t0}: reported;  with the last link optional: accepted *)
   let t l := [(1, Entry (NObj false false [NRef false false [2]]) []); (2, Entry (NObj false false [l]) [])]%N in
